@@ -58,7 +58,17 @@ def check(ctx):
             top = {"a": list(shared_a), "g": [({"o": F(1), "i": F(-1)}, F(rng.randint(0, 2)))], "i": ["i"], "o": ["o"]}
             divisor = {"a": list(shared_a) + [extra], "g": pc.two_sided(rng, {"m": F(1), "i": F(-1)}, pt, 0), "i": ["i", "u"], "o": ["m"]}
             mode = "dividend_assumptions_sublist_of_divisor"
-        if rng.random() < 0.3 and top["a"] and mode != "dividend_assumptions_sublist_of_divisor":
+        if rng.random() < 0.12:
+            # the divisor drives EVERY top-level output and reads only top-level inputs: the quotient keeps no output at all, and what is
+            # left of the dividend's guarantee is a requirement on an input that only the quotient reads
+            a1 = F(rng.choice([1, 2, -1, 3]))
+            c0, c1 = F(rng.randint(-2, 4)), F(rng.randint(0, 6))
+            bounds = [({"x": F(1)}, F(rng.randint(4, 10))), ({"x": F(-1)}, F(0))] if rng.random() < 0.6 else []
+            top = {"a": list(bounds), "g": [({"y": F(1), "x": -a1, "q": F(-1)}, c0)], "i": ["x", "q"], "o": ["y"]}
+            divisor = {"a": list(bounds) if rng.random() < 0.7 else [], "g": [({"y": F(1), "x": -a1}, c1)] + ([({"y": F(-1), "x": a1}, F(rng.randint(0, 3)))] if rng.random() < 0.4 else []),
+                       "i": ["x"], "o": ["y"]}
+            mode = "quotient_without_outputs"
+        if rng.random() < 0.3 and top["a"] and mode not in ("dividend_assumptions_sublist_of_divisor", "quotient_without_outputs"):
             top = dict(top, a=top["a"][:-1])          # weaker top-level assumptions: may no longer imply the divisor's
         cand = list(dict.fromkeys(divisor["o"] + top["i"]))
         add = [v for v in cand if rng.random() < 0.25]
@@ -89,6 +99,14 @@ def check(ctx):
             okr, vr, _ = pp.observe(lambda: kt.a.refines(kd.a))
             if okr == "ok":
                 hist["refines_branch_true" if vr else "refines_branch_false"] += 1
+            # the plain entry point (default tactics) must satisfy the same obligation
+            if k % 2 == 0 or mode == "quotient_without_outputs":
+                okp, vp, _ = pp.observe(lambda: kt.quotient(kd, None if add_arg is None else [Var(x) for x in add_arg], simplify))
+                if okp == "ok":
+                    hist[f"{mode}:plain_quotient:ok"] = hist.get(f"{mode}:plain_quotient:ok", 0) + 1
+                    jobs.append((len(cases) - 1, "plain-quotient()", (top, divisor, cf.contract_of(vp))))
+                elif vp[0] == 6:
+                    ctx.violation("quotient:escape:" + vp[1], "undocumented exception escaped from quotient()", dict(payload, exception=vp[1] + ": " + vp[2]))
         else:
             hist[f"{mode}:{v[1]}"] = hist.get(f"{mode}:{v[1]}", 0) + 1
             if v[0] == 1:
